@@ -71,6 +71,8 @@ inductive HOp
   | unlink (a b : Nat)               -- a.coll.remove(b)
   | linkNewOwner (b : Nat)           -- the object created last owns the link: `X(coll=[b])` (creation and link are two operations)
   | linkNewItem (a : Nat)            -- a.coll.add(the object created last)
+  | query                            -- a read THROUGH the database (select, raw SQL): `prepare_connection_for_query_execution`
+                                     -- flushes first unless flush is disabled (it is, inside before_* hooks)
   deriving DecidableEq, Repr, Inhabited
 
 inductive Err
@@ -135,6 +137,7 @@ def applyOp (s : State) : HOp → Except Err State
   | .unlink a b => applyLink s a b false
   | .linkNewOwner b => applyLink s (s.objs.length - 1) b true
   | .linkNewItem a => applyLink s a (s.objs.length - 1) true
+  | .query => .ok s                   -- inside `cache.flush_disabled()` (before_* hooks; `applyOpA` is the after_* reading)
 
 def runOps : List HOp → State → Except Err State
   | [], s => .ok s
@@ -225,6 +228,75 @@ def flushLoop (H : Hooks) (ord : Nat → List Nat → List Nat) (bfuel : Nat) : 
 
 def flush (H : Hooks) (ord : Nat → List Nat → List Nat) (bfuel : Nat) (s : State) : Except Err State :=
   flushLoop H ord bfuel 50 s
+
+/-! ### queries inside after_* hooks: recursive flush
+
+  `call_after_save_hooks` runs outside `flush_disabled()`: a query made by an after_* hook calls `cache.flush()` again when something
+  is modified (`if not cache.noflush_counter and cache.modified: cache.flush()`), i.e. complete rounds nested inside the after-phase of
+  the running round.  `nested` is that inner flush; `flushN` closes the recursion with a depth fuel (Python's recursion limit).
+  The statement order is asked per round with the state at the start of the save loop (`ord s pending`). -/
+
+def applyOpA (nested : State → Except Err State) (s : State) (op : HOp) : Except Err State :=
+  match op with
+  | .query => if s.modified then nested s else .ok s
+  | op => applyOp s op
+
+def runOpsA (nested : State → Except Err State) : List HOp → State → Except Err State
+  | [], s => .ok s
+  | op :: rest, s =>
+    match applyOpA nested s op with
+    | .ok s' => runOpsA nested rest s'
+    | .error e => .error e
+
+def afterLoopA (nested : State → Except Err State) (H : Hooks) : List (Nat × Kind) → State → Except Err State
+  | [], s => .ok s
+  | (o, k) :: rest, s =>
+    let s1 := { s with trace := s.trace ++ [.after k o] }
+    match runOpsA nested (H.after k s1 o) s1 with
+    | .ok s2 => afterLoopA nested H rest s2
+    | .error e => .error e
+
+def roundA (nested : State → Except Err State) (H : Hooks) (ord : State → List Nat → List Nat) (bfuel : Nat) (s : State) : Except Err State :=
+  match beforeLoop H bfuel 0 s with
+  | .error e => .error e
+  | .ok s1 =>
+    match savePhase (ord s1) (calcAndRemoveM2m s1) with
+    | .error e => .error e
+    | .ok s2 =>
+      let s3 : State := { (addM2m s2) with queue := [], modified := false }
+      afterLoopA nested H s3.saved { s3 with saved := [] }
+
+def flushLoopA (nested : State → Except Err State) (H : Hooks) (ord : State → List Nat → List Nat) (bfuel : Nat) : Nat → State → Except Err State
+  | 0, s => if s.modified then .error (.limit s) else .ok s
+  | n + 1, s =>
+    if !s.modified then .ok s else
+    match roundA nested H ord bfuel s with
+    | .error e => .error e
+    | .ok s' => flushLoopA nested H ord bfuel n s'
+
+/-- `cache.flush()` with queries inside after_* hooks flushing recursively, at most `depth` levels deep -/
+def flushN (H : Hooks) (ord : State → List Nat → List Nat) (bfuel : Nat) : Nat → State → Except Err State
+  | 0, _ => .error .outOfFuel
+  | d + 1, s => flushLoopA (flushN H ord bfuel d) H ord bfuel 50 s
+
+/-- the once-before / once-after automaton for one (kind, object): (a before-hook is waiting for its statement, number of statements
+    waiting for their after-hook) -/
+def stepKey (p : Kind × Nat) (st : Bool × Nat) : Event → Option (Bool × Nat)
+  | .before k o => if (k, o) = p then (if st.1 then none else some (true, st.2)) else some st
+  | .stmt k o => if (k, o) = p then (if st.1 then some (false, st.2 + 1) else none) else some st
+  | .after k o => if (k, o) = p then (if st.2 = 0 then none else some (st.1, st.2 - 1)) else some st
+  | _ => some st
+
+def runKey (p : Kind × Nat) : List Event → Bool × Nat → Option (Bool × Nat)
+  | [], st => some st
+  | e :: t, st =>
+    match stepKey p st e with
+    | some st' => runKey p t st'
+    | none => none
+
+/-- every statement of the trace has its own before-hook entry before it (no second entry in between) and its own after-hook entry
+    after it, for every kind and object, and nothing is left over — also when the trace is appended to an unfinished after-phase -/
+def Balanced (t : List Event) : Prop := ∀ p n, runKey p t (false, n) = some (false, n)
 
 /-! ### Entity.flush (`obj.flush()`)
 
